@@ -66,6 +66,14 @@ var c08Graphs = []c08Graph{
 	}, func(root string) api.BuildOptions {
 		return api.BuildOptions{EntryPoints: []string{"entry.js"}, Bundle: true, Format: api.FormatESModule, Outdir: "out", Metafile: true, MangleProps: "_$", MangleCache: map[string]interface{}{}, MinifyIdentifiers: true}
 	}},
+	{"G7-glob-entry-point-diagnostics", map[string]string{
+		// glob entry points that match nothing or whose base directory is missing produce location-less warnings and
+		// errors from one goroutine per entry point: their order must be the order of the entry points
+		"src/ok.js":  "console.log('ok')",
+		"src/ok2.js": "console.log('ok2')",
+	}, func(root string) api.BuildOptions {
+		return api.BuildOptions{EntryPoints: []string{"src/*.nomatch1", "missing1/*.js", "src/ok.js", "src/*.nomatch2", "missing2/*.js", "src/ok*.js", "src/*.nomatch3"}, Bundle: true, Format: api.FormatESModule, Outdir: "out", Metafile: true}
+	}},
 	{"G5-inject-and-glob", map[string]string{
 		"entry.js":    "const n = 'a'; console.log(require('./dir/' + n + '.js'), injected1, injected2); import('./dir/' + n + '.js')",
 		"dir/a.js":    "module.exports = 'A'",
